@@ -67,7 +67,7 @@ namespace adept {
       }
 
       bool is_aliased_(const Type* mem1, const Type* mem2) const {
-	return false;
+	return left.is_aliased_(mem1, mem2) || right.is_aliased_(mem1, mem2);
       }
 
       bool all_arrays_contiguous_() const {
